@@ -38,8 +38,33 @@ EPS = 2.0**-10
 GAPS = [0.0, D / 2, D - EPS, D, D + EPS]
 
 
+class El:
+    """A queue element with value equality, like the records the library itself queues: several elements of one program
+    are equal but distinct objects, and the log names an element by its index (identity) - seeded change C17-9."""
+
+    __slots__ = ("idx", "grp")
+
+    def __init__(self, idx, grp):
+        self.idx, self.grp = idx, grp
+
+    def __eq__(self, other):
+        return isinstance(other, El) and other.grp == self.grp
+
+    def __hash__(self):
+        return hash(self.grp)
+
+    def __repr__(self):
+        return f"El({self.idx})"
+
+
+def _idx(x):
+    return None if x is None else x.idx
+
+
 def make_main(prog):
     W = loader.load()
+    n_ = len(prog["puts"])
+    els = [El(i, (i % 2) if n_ % 2 else 0) for i in range(n_)]
     th, tm = core.fake_threading, core.fake_time
 
     def main(s):
@@ -50,7 +75,7 @@ def make_main(prog):
 
             class Recording(collections.deque):
                 def append(self, item):
-                    s.record("inserted", (item[0], now()))
+                    s.record("inserted", (_idx(item[0]), now()))
                     super().append(item)
 
             q._queue = Recording(q._queue)
@@ -60,13 +85,13 @@ def make_main(prog):
                 if gap:
                     tm.sleep(gap)
                 s.record("put_call", (i, delayed, now()))
-                q.put(i, delay=delayed)
+                q.put(els[i], delay=delayed)
                 s.record("put_ret", (i, now()))
 
         def consumer():
             while True:
                 s.record("get_call", now())
-                x = q.get()
+                x = _idx(q.get())
                 s.record("get_ret", (x, now()))
                 if x is None:
                     break
@@ -78,7 +103,7 @@ def make_main(prog):
                 if gap:
                     tm.sleep(gap)
                 s.record("remove_call", (target, now()))
-                x = q.remove((lambda e: e == target) if not prog.get("pred_time") else (lambda e: (tm.sleep(prog["pred_time"]), e == target)[1]))
+                x = _idx(q.remove((lambda e: e.idx == target) if not prog.get("pred_time") else (lambda e: (tm.sleep(prog["pred_time"]), e.idx == target)[1])))
                 s.record("remove_ret", (target, x, now()))
 
         def closer():
@@ -103,7 +128,7 @@ def make_main(prog):
             s.record("close_ret", now())
         for t in ts:
             t.join()
-        s.record("late_get", q.get())
+        s.record("late_get", _idx(q.get()))
         return None
 
     return main
